@@ -41,6 +41,13 @@ func (c *connection) onHup(p Poll) error {
 	onRequest := c.onRequestCallback.Load()
 	needCloseByUser := onConnect == nil && onRequest == nil
 	if !needCloseByUser {
+		// Input that nobody has been started for yet (it arrived before SetOnRequest
+		// installed the handler, or a handler task has just exited) is offered to the
+		// handler first; its task runs the close callbacks when it exits.
+		if handler, ok := onRequest.(OnRequest); ok && c.inputBuffer.Len() > 0 &&
+			(onConnect == nil || c.getState() != connStateNone) && c.onProcess(nil, handler) {
+			return nil
+		}
 		// already PollDetach when call OnHup
 		c.closeCallback(true, false)
 	}
